@@ -177,6 +177,37 @@ func main() {
 				fmt.Fprintf(wo, "load %d %s %s\n", a.HibernationThreshold, sn, sg)
 				fmt.Fprintln(wi, state(a))
 			}
+			if st0, _, _, _, _, _ := a.VerifHibState(); st0 && rng.Intn(3) == 0 {
+				// use of a hibernated allocator must be refused (panic) and must leave the hibernated state untouched
+				before := state(a)
+				what := []string{"Used()", "Clone()", "Insert into a tree", "DeleteWithKey on a tree"}[rng.Intn(4)]
+				refused := false
+				func() {
+					defer func() {
+						if recover() != nil {
+							refused = true
+						}
+					}()
+					switch what {
+					case "Used()":
+						a.Used()
+					case "Clone()":
+						a.Clone()
+					case "Insert into a tree":
+						t1.Insert(rbtree.Item{Key: uint32(1000 + rng.Intn(30)), Value: 1})
+					default:
+						if !t1.DeleteWithKey(uint32(rng.Intn(30))) {
+							refused = true // nothing to delete: no allocator access was needed
+						}
+					}
+				}()
+				kinds["use_while_hibernated"]++
+				if !refused {
+					hv.Fail("use-while-hibernated", fmt.Sprintf(`{"seed":%d,"case":%d,"use":%q}`, seed, it, what), what+" on a hibernated allocator was not refused")
+				} else if state(a) != before {
+					hv.Fail("use-while-hibernated", fmt.Sprintf(`{"seed":%d,"case":%d,"use":%q}`, seed, it, what), what+" on a hibernated allocator was refused but changed its state")
+				}
+			}
 			for k := 1 + rng.Intn(4); k > 0; k-- {
 				op := []string{"hib", "boot", "ser", "deser", "hib", "boot"}[rng.Intn(6)]
 				if op == "deser" && !haveFile {
